@@ -71,6 +71,8 @@ type submitOp struct {
 	Why      string       `json:"why,omitempty"` // what the generator intended with this request
 	// FaultIssuer: the first issuer upload this request triggers fails in the backend (not applied)
 	FaultIssuer bool `json:"fault_issuer,omitempty"`
+	// FaultRoots (setroots): persisting the bundle (_roots.pem) fails in the backend (not applied)
+	FaultRoots bool `json:"fault_roots,omitempty"`
 }
 
 type submitCertRec struct {
@@ -359,16 +361,28 @@ func (r *submitRunner) run() (err error) {
 		op := &c.Ops[i]
 		switch op.Op {
 		case "setroots":
+			if op.FaultRoots {
+				lg.store.mu.Lock()
+				lg.store.failRoots = 1
+				lg.store.mu.Unlock()
+			}
 			err := lg.log.SetRootsFromPEM(context.Background(), op.PEM)
+			lg.store.mu.Lock()
+			fired := op.FaultRoots && lg.store.failRoots == 0 // the bundle reached the backend and was refused there
+			lg.store.failRoots = 0
+			lg.store.mu.Unlock()
 			res := "ok"
 			if err != nil {
 				res = "err"
 			}
 			g.count("roots/set-" + res)
-			r.line("setroots %s %d %s", submitIDs(op.PEMCerts), submitB(op.PEMOK), res)
-			// oracle: a PEM bundle is accepted iff every block is a certificate and there is at least one
-			if (err == nil) != op.PEMOK {
-				g.fail(c, i, "submit-setroots-result", fmt.Sprintf("SetRootsFromPEM of %s (parsable=%v) returned %v", submitIDs(op.PEMCerts), op.PEMOK, err))
+			if fired {
+				g.count("roots/persist-fault")
+			}
+			r.line("setroots %s %d %s %d", submitIDs(op.PEMCerts), submitB(op.PEMOK), res, submitB(!fired))
+			// oracle: a PEM bundle is accepted iff every block is a certificate, there is at least one, and it was persisted
+			if (err == nil) != (op.PEMOK && !fired) {
+				g.fail(c, i, "submit-setroots-result", fmt.Sprintf("SetRootsFromPEM of %s (parsable=%v, persisted=%v) returned %v", submitIDs(op.PEMCerts), op.PEMOK, !fired, err))
 			}
 			if err == nil {
 				r.roots = nil
@@ -881,6 +895,15 @@ func (g *submitEngine) genCase(r *Rand, name string, nops int, wide bool) *submi
 		}
 		c.Ops = append(c.Ops, submitOp{Op: "getroots"})
 	}
+	setRootsFault := func(ids []string) {
+		var cs []*submitCert
+		for _, id := range ids {
+			cs = append(cs, h.all[id])
+		}
+		// the harness' belief (`roots`) does not change: if the bytes equal the current bundle nothing is uploaded
+		// and the call succeeds without changing anything either
+		c.Ops = append(c.Ops, submitOp{Op: "setroots", PEM: submitPEM(cs), PEMCerts: ids, PEMOK: true, FaultRoots: true}, submitOp{Op: "getroots"})
+	}
 	c.Ops = append(c.Ops, submitOp{Op: "getroots"}) // a new log has no roots
 	setRoots([]string{"R0", "R1", "RP", "RQ"}, "")
 
@@ -933,7 +956,12 @@ func (g *submitEngine) genCase(r *Rand, name string, nops int, wide bool) *submi
 		switch {
 		case x < 4:
 			// root reloads
-			switch r.Intn(8) {
+			switch r.Intn(10) {
+			case 8, 9:
+				// a reload to a different set whose bundle cannot be persisted: the old set stays in force, for
+				// validation and for get-roots alike; a chain to a root of exactly one of the two sets follows
+				alt := [][]string{{"R1"}, {"R0", "RP"}, {"R0", "R1", "RP", "RQ"}, {"RQ", "R1"}}[r.Intn(4)]
+				setRootsFault(alt)
 			case 0:
 				setRoots([]string{"R1"}, "")
 			case 1:
